@@ -145,9 +145,10 @@ var controlTable = []control{
 	{"C15", "header-columns-by-map-again", "deb/ar.go", "for _, target := range []entryField{\n\t\t{\"Timestamp\", &entry.Timestamp, line[16:28]},\n\t\t{\"OwnerID\", &entry.OwnerID, line[28:34]},\n\t\t{\"GroupID\", &entry.GroupID, line[34:40]},\n\t\t{\"Size\", &entry.Size, line[48:58]},\n\t} {", "for _, target := range map[int]entryField{\n\t\t0: {\"Timestamp\", &entry.Timestamp, line[16:28]},\n\t\t1: {\"OwnerID\", &entry.OwnerID, line[28:34]},\n\t\t2: {\"GroupID\", &entry.GroupID, line[34:40]},\n\t\t3: {\"Size\", &entry.Size, line[48:58]},\n\t} {", "C15-DET"},
 	{"C15", "log-fatal-on-bad-header", "deb/ar.go", "return nil, fmt.Errorf(\"Malformed file entry line endings\")", "panic(\"Malformed file entry line endings\")", "C15-NOFATAL"},
 	// C16
-	{"C16", "control-left-out-of-signed-stream", "deb/sigcheck.go", "io.MultiReader(binaryFlag.Data, control.Data, data.Data)", "io.MultiReader(binaryFlag.Data, data.Data)", "C16-STREAM"},
-	{"C16", "data-before-control", "deb/sigcheck.go", "io.MultiReader(binaryFlag.Data, control.Data, data.Data)", "io.MultiReader(binaryFlag.Data, data.Data, control.Data)", "C16-STREAM"},
-	{"C16", "control-not-rewound", "deb/sigcheck.go", "control.Data.Seek(0, 0)\n", "", "C16-STREAM"},
+	{"C16", "control-left-out-of-signed-stream", "deb/sigcheck.go", "io.MultiReader(whole(binaryFlag), whole(control), whole(data))", "io.MultiReader(whole(binaryFlag), whole(data))\n\t_ = control", "C16-STREAM"},
+	{"C16", "data-before-control", "deb/sigcheck.go", "io.MultiReader(whole(binaryFlag), whole(control), whole(data))", "io.MultiReader(whole(binaryFlag), whole(data), whole(control))", "C16-STREAM"},
+	{"C16", "shared-member-readers-again", "deb/sigcheck.go", "signedData := io.MultiReader(whole(binaryFlag), whole(control), whole(data))\n\treturn openpgp.CheckDetachedSignature(validKeys, signedData, whole(sig))", "binaryFlag.Data.Seek(0, 0)\n\tcontrol.Data.Seek(0, 0)\n\tdata.Data.Seek(0, 0)\n\t_ = whole\n\tsignedData := io.MultiReader(binaryFlag.Data, control.Data, data.Data)\n\treturn openpgp.CheckDetachedSignature(validKeys, signedData, sig.Data)", "C16-STREAM"},
+	{"C16", "member-read-from-its-second-byte", "deb/sigcheck.go", "io.NewSectionReader(entry.Data, 0, entry.Data.Size())", "io.NewSectionReader(entry.Data, 1, entry.Data.Size()-1)", "C16-STREAM"},
 	{"C16", "role-ignored", "deb/sigcheck.go", "deb.ArContent[`_gpg`+sigType]", "deb.ArContent[`_gpgorigin`]", "C16-ROLE"},
 	{"C16", "duplicate-names-overwrite-again", "deb/deb.go", "if _, dup := contents[member.Name]; dup {\n\t\t\treturn nil, fmt.Errorf(\"Archive contains more than one member '%s'\", member.Name)\n\t\t}\n", "", "C16-SAME"},
 	// C17
